@@ -307,7 +307,11 @@ func TestVerifUDP(t *testing.T) {
 		size, rb := r.pick(300, 2500, 5000), r.pick(64, 100, 2048)
 		fmt.Fprintf(out.cases, "udp big size=%d readbuf=%d\n", size, rb)
 		out.cases.Flush()
-		sig, desc := udpBigDatagramScenario(size, rb)
+		first := 4
+		if k%2 == 1 {
+			first = size // the datagram fits the first read's buffer exactly
+		}
+		sig, desc := udpBigDatagramScenarioF(size, rb, first)
 		if sig != "" {
 			out.fail(n+npark+k, sig, desc)
 			fmt.Fprintf(out.out, "FAIL %s\n", sig)
@@ -321,7 +325,10 @@ func TestVerifUDP(t *testing.T) {
 
 // udpBigDatagramScenario: after another client's large datagrams went through the pooled receive buffers, a client sends one
 // datagram of `size` bytes and then a short one; its handler reads with a buffer of `rb` bytes
-func udpBigDatagramScenario(size, rb int) (sig, desc string) {
+func udpBigDatagramScenario(size, rb int) (sig, desc string) { return udpBigDatagramScenarioF(size, rb, 4) }
+
+// first: length of the buffer of the handler's first read (4 = just the tag; size = the datagram fits exactly)
+func udpBigDatagramScenarioF(size, rb, first int) (sig, desc string) {
 	pc, err := net.ListenPacket("udp", "127.0.0.1:0")
 	if err != nil {
 		return "", ""
@@ -335,11 +342,11 @@ func udpBigDatagramScenario(size, rb int) (sig, desc string) {
 	route := &Route{}
 	route.middleware = append(route.middleware, wrapHandler(NextHandlerFunc(func(cx *Connection, _ Handler) error {
 		big := make([]byte, 9000)
-		k, err := cx.Read(big[:4])
+		k, err := cx.Read(big[:first])
 		if err != nil {
 			return nil
 		}
-		if string(big[:k]) != "BIG:" {
+		if k < 4 || string(big[:4]) != "BIG:" {
 			// the other client: swallow its datagrams whole
 			for {
 				if _, err := cx.Read(big); err != nil {
@@ -392,7 +399,7 @@ func udpBigDatagramScenario(size, rb int) (sig, desc string) {
 			return "udp-datagram-stream", fmt.Sprintf("a %d-byte datagram read with a %d-byte buffer: the handler read %d bytes that are not the datagram (first difference at %d)", size, rb, len(r.got), firstDiff(r.got, d1))
 		}
 		if string(r.next) != "END\n" {
-			return "udp-datagram-stream", fmt.Sprintf("after a %d-byte datagram read with a %d-byte buffer the next read returned %d bytes that are not the next datagram", size, rb, len(r.next))
+			return "udp-datagram-stream", fmt.Sprintf("after a %d-byte datagram (first read with a %d-byte buffer, then %d-byte buffers) the next read returned %d bytes that are not the next datagram", size, first, rb, len(r.next))
 		}
 	case <-time.After(3 * time.Second):
 		return "udp-datagram-stream", fmt.Sprintf("a %d-byte datagram read with a %d-byte buffer: the handler did not get the datagram and its successor within 3 s", size, rb)
@@ -522,7 +529,14 @@ func TestVerifUDPBig(t *testing.T) {
 		size, rb := r.pick(300, 2049, 2500, 5000, 8500), r.pick(64, 100, 2048, 4096)
 		fmt.Fprintf(out.cases, "udp big size=%d readbuf=%d\n", size, rb)
 		out.cases.Flush()
-		sig, desc := udpBigDatagramScenario(size, rb)
+		first := 4
+		if k%2 == 1 {
+			first = size // the datagram fits the first read's buffer exactly
+			if k%4 == 3 {
+				size, first = 2048, 2048 // the size of a prefetch chunk
+			}
+		}
+		sig, desc := udpBigDatagramScenarioF(size, rb, first)
 		if sig != "" {
 			out.fail(k, sig, desc)
 			fmt.Fprintf(out.out, "FAIL %s\n", sig)
